@@ -39,11 +39,17 @@ def gen_case(rng, tier="quick"):
          else _pick(rng, [0.15, 0.25, 4.0, 6.0]),
          "n_steps": rng.randrange(2, 9) if rng.random() < 0.85
          else rng.randrange(9, 41),
+         "_long": rng.random() < float(__import__("os").environ.get(
+             "C11_LONG_P", "0.015")),
          "epsrel": _pick(rng, [1e-9, 1e-10]),
          "zeta": _pick(rng, [1.0, 2.0, 3.0]),
          "cutoff": _r(rng, 1.0, 4.0),
          "cutoff_type": _pick(rng, ["exponential", "gaussian", "hard"]),
          "hseed": rng.randrange(1 << 30)}
+    if m.pop("_long") and d < 4:
+        # many imaginary-time steps (nothing in the property limits them)
+        m["n_steps"] = _pick(rng, [64, 65, 100, 128, 129] if d == 2
+                             else [64, 65])
     if kind == "commuting":
         m["alpha"] = _r(rng, 0.05, 0.6)
         m["energies"] = [_r(rng, -1.5, 1.5) for _ in range(d)]
@@ -118,6 +124,8 @@ def shrink(case):
         out.append(dict({"model": case["model"],
                          "ops": ops[:i] + ops[i + 1:]}, **keep))
     m = case["model"]
+    if m["n_steps"] > 8:
+        out.append({"model": dict(m, n_steps=m["n_steps"] // 2), "ops": ops})
     if m["n_steps"] > 2:
         out.append({"model": dict(m, n_steps=m["n_steps"] - 1), "ops": ops})
     if m.get("complex"):
